@@ -99,6 +99,9 @@ func (pc *PkgContracts) GenProbe() string {
 				fmt.Fprintf(&b, "\t%s := %s; _ = %s\n", probeVar(ml.BaseFn), ml.Base, probeVar(ml.BaseFn))
 			}
 		}
+		for _, cs := range c.Cases {
+			fmt.Fprintf(&b, "\t%s := %s; _ = %s\n", probeVar(cs.Fn), cs.Expr, probeVar(cs.Fn))
+		}
 		b.WriteString("}\n")
 		for _, lp := range c.Loops {
 			ps := append(c.AllParams(), lp.Locals...)
@@ -166,6 +169,13 @@ func (pc *PkgContracts) SetProbeTypes(ty map[string]string) error {
 				ml.BaseTy = t
 			}
 		}
+		for _, cs := range c.Cases {
+			t, err := get(cs.Fn)
+			if err != nil {
+				return err
+			}
+			cs.Ty = t
+		}
 	}
 	return nil
 }
@@ -202,6 +212,9 @@ func (pc *PkgContracts) GenFinal() string {
 				fmt.Fprintf(&b, "func %s(%s) int { return %s }\n", ml.LoFn, paramList(ps), ml.Lo)
 				fmt.Fprintf(&b, "func %s(%s) int { return %s }\n", ml.HiFn, paramList(ps), ml.Hi)
 			}
+		}
+		for _, cs := range c.Cases {
+			fmt.Fprintf(&b, "func %s(%s) %s { return %s }\n", cs.Fn, paramList(ps), cs.Ty, cs.Expr)
 		}
 		for _, lp := range c.Loops {
 			lps := append(append([]Param{}, ps...), lp.Locals...)
